@@ -28,7 +28,7 @@
 using namespace FIX8;
 namespace vf {
 
-extern bool vclock_on;
+extern std::atomic<bool> vclock_on;
 Message *build_message(const F8MetaCntx& ctx, std::istringstream& is);
 
 //-----------------------------------------------------------------------------------------------
@@ -40,7 +40,7 @@ struct FakeSock : Poco::Net::StreamSocketImpl
 	std::vector<std::string> out;   // one entry per sendBytes call
 	bool closed = false, blocking = false;
 	int wmax = 0;                   // > 0: sendBytes accepts at most that many bytes per call (short writes)
-	unsigned long rcalls = 0, wcalls = 0;
+	std::atomic<unsigned long> rcalls{0}, wcalls{0};
 	std::atomic<bool> waiting{false};   // a reader is blocked on an empty inbound queue: everything fed so far has been consumed and processed
 
 	int sendBytes(const void *buffer, int length, int) override
@@ -132,7 +132,12 @@ struct TSession : Session
 	std::vector<std::pair<int, int>> trans;
 	bool deliver_ok = true;
 
-	void quiet_timer() { _timer.clear(); _timer.stop(); _timer.join(); }
+	// the timer thread is stopped for the lifetime of the session (ticks are explicit calls); it is joined once, by ~Timer
+	void quiet_timer()
+	{
+		_timer.clear(); _timer.stop();
+		for (int i(0); i < 200000 && _timer.cancellation_token().thread_state() != f8_thread_cancellation_token::Stopped; ++i) usleep(10);
+	}
 	TSession(const F8MetaCntx& ctx, const SessionID& sid, Persister *p) : Session(ctx, sid, p) { quiet_timer(); }
 	TSession(const F8MetaCntx& ctx, const sender_comp_id& sci, Persister *p) : Session(ctx, sci, p) { quiet_timer(); }
 
@@ -230,7 +235,8 @@ static std::string observe(Slot& s, const std::string& ret = "null")
 		j.k("pend").unum(s.fs ? s.fs->pending() : 0);
 		J c('[');
 		unsigned a(0), b(0);
-		if (s.pers) { const bool ok(s.pers->get(a, b)); c.boolean(ok).unum(a).unum(b); }
+		// (only in the single-threaded model: in the threaded models the writer thread may be storing at this moment)
+		if (s.pers && s.pm == pm_coro) { const bool ok(s.pers->get(a, b)); c.boolean(ok).unum(a).unum(b); }
 		j.k("ctrl").raw(c.done());
 	}
 	j.k("rxret").num(g_rxret);
